@@ -833,6 +833,13 @@ class Engine(object):
                     continue
                 except RecursionError as e:
                     r = ('EXC', e)
+                except NonDeterminism as e:
+                    # a re-run of a recorded prefix took other decisions (state the harness does not reset between paths): the
+                    # remaining prefixes cannot be trusted - stop, and say so (the caller reports it as inconclusive, never as success)
+                    self.stats['nondeterministic'] = self.stats.get('nondeterministic', 0) + 1
+                    self.unexplored.append('exploration not deterministic (%s); %d prefixes dropped' % (e, len(self.work)))
+                    self.work = []
+                    continue
                 if on_path is not None:
                     on_path(r)
                 else:
